@@ -132,6 +132,8 @@ namespace
     long injected = 0, fired = 0, survived = 0;
 
     // one run of the scenario; fail_at < 0: no injection. returns number of upstream attempts
+    std::size_t g_budget = std::size_t(-1); // peak upstream bytes of the baseline run: the failure runs must get by with it
+
     template <class K>
     long scenario(std::uint64_t seed, long fail_at, int fail_kind, int ops, const std::string& kind)
     {
@@ -142,6 +144,8 @@ namespace
         auto h       = make_probe("raw", true);
         h->fail_at   = fail_at;
         h->fail_kind = fail_kind;
+        if (fail_at >= 0)
+            h->budget = g_budget; // the same history needs no more upstream memory than without the failure
         shadow             sh;
         false_report_guard frg;
         std::unique_ptr<A> obj;
@@ -177,6 +181,7 @@ namespace
                 void* p      = nullptr;
                 auto  fired0 = h->fired;
                 auto  oom0   = hl().oom;
+                auto  mn0 = tr::max_node_size(*obj), ma0 = tr::max_array_size(*obj);
                 try
                 {
                     p = q.arr ? tr::allocate_array(*obj, q.count, q.size, q.align) : tr::allocate_node(*obj, q.size, q.align);
@@ -197,9 +202,18 @@ namespace
                         viol("C03", "C03/" + kind + "/oom-handler-not-called", "out_of_memory propagated without its handler having been called");
                     ++fired;
                     flag("upstream-failure");
+                    // from here on the C01/C05/C18 oracles also decide C03's "a failed request leaves every earlier allocation valid and
+                    // the allocator able to serve later valid requests"
+                    cx().also     = "C03";
+                    cx().also_for = "C01 C05 C18";
                     // every earlier allocation is still valid
                     sh.sweep();
                     h->fail_at = -1;
+                    // a request that failed consumed nothing: the reported maxima (next_capacity) are what they were
+                    if (tr::max_node_size(*obj) != mn0 || tr::max_array_size(*obj) != ma0)
+                        viol("C18", "C18/" + kind + "/failed-request-changed-maxima",
+                             "a request that failed because the upstream failed changed max_node_size %zu -> %zu / max_array_size %zu -> %zu", mn0,
+                             tr::max_node_size(*obj), ma0, tr::max_array_size(*obj));
                     // and the same request is served now
                     try
                     {
@@ -211,7 +225,9 @@ namespace
                     }
                     catch (std::bad_alloc&)
                     {
-                        viol("C03", "C03/" + kind + "/unusable-after-failure", "after an upstream failure the same valid request fails although the upstream works again");
+                        viol("C03", "C03/" + kind + "/unusable-after-failure",
+                             "after an upstream failure the same valid request fails although the upstream works again%s",
+                             h->refused_by_budget ? " (it asked the upstream for more memory than the same history needs without the failure)" : "");
                     }
                     ++survived;
                 }
@@ -250,6 +266,8 @@ namespace
         }
         sh.sweep();
         long attempts = h->attempts;
+        if (fail_at < 0)
+            g_budget = h->bytes_peak;
         hl().leaks.clear();
         obj.reset();
         h->check();
@@ -268,6 +286,7 @@ namespace
         for (long c = a.from; c < a.to; ++c)
             run_case(kind, c, [&] {
                 auto seed = case_rng(a.seed, a.group, kind, c).next();
+                g_budget  = std::size_t(-1);
                 long K0   = scenario<K>(seed, -1, 0, a.ops, kind);
                 op("baseline made %ld upstream calls", K0);
                 for (long k = 0; k < K0 && k < maxk; ++k)
@@ -407,6 +426,8 @@ namespace
                     if (count > SM / std::max<std::size_t>(size, 1))
                         count = SM / std::max<std::size_t>(size, 1);
                     std::size_t align = r.chance(30) ? (mal > SM / 2 ? std::size_t(1) << 62 : mal * 2) : std::size_t(1) << r.below(4);
+                    if (mal >= 4096 && r.chance(40))
+                        align = std::size_t(16) << r.below(9); // 16..4096 on stack-like allocators: the padding must be part of the size check
                     if (align == 0)
                         align = 1;
                     // keep what could legitimately succeed small enough to be materialised by the harness
